@@ -136,6 +136,22 @@ CLAIMS["C10"] = {
     "design_ref": "DESIGN.md §3 TABLES/WIRING, §4 C10",
 }
 
+
+CLAIMS["C17"] = {
+    "text": "Decides the splice loops of replace / replace_with / replace_all / replace_all_with: the haystack is only sliced as the gap before a "
+            "match and the tail after the last one, the cursor only ever moves to m.end(), and gap, insertion and cursor update happen in that "
+            "order on every path (SPLICE) - so unmatched text is preserved byte for byte whatever the template expands to.",
+    "note": COMMON_NOTE + "Not decided: the `$` template scanner (a value-level state machine) and the match sequence itself (C01/C09).",
+    "technique": "MIR value-flow + dominators over the slicing calls and cursor updates of the four replace functions",
+}
+CLAIMS["C18"] = {
+    "text": "Decides that escape() is sufficient and faithful by table agreement: the characters Parser::consume_term treats specially are a subset of "
+            "those escape() prefixes, each of which has an unconditional identity escape in consume_character_escape and is not special after a "
+            "backslash; every loop iteration of escape() pushes the character itself exactly once (ESCAPE).",
+    "note": COMMON_NOTE + "Not decided: that the escaped pattern then matches like substring search (inherits C01/C10).",
+    "technique": "HIR literal-pattern tables of three functions cross-checked (S <= E <= I) + push-sequence check per match arm",
+}
+
 PENDING = "rules for this property are designed (DESIGN.md §3/§4) but not built yet; nothing is claimed until they exist"
 
 NOT_APPLICABLE = {("C%02d" % i): PENDING for i in range(1, 21)}
